@@ -161,6 +161,21 @@ def run(ctx):
         c05.criteria_oracle(ctx, case, real)
         for f in ctx.failures[before:]:
             f.signature = "C11/paired-criterion"
+    # paired-end length criteria: -m / -M with one-sided bounds (LEN: / :LEN2) under every --pair-filter mode, alone and together
+    pc = [c05.decision_case(ctx) for _ in range(ctx.scale(60, 1000))]
+    for case, res, real, model in pipe.run_cases(ctx, pc):
+        ctx.count("directed-paired-length")
+        before = len(ctx.failures)
+        c05.decision_oracle(ctx, case, real)
+        for f in ctx.failures[before:]:
+            f.signature = "C11/paired-criterion"
+    pc = [c05.two_bounds_case(ctx) for _ in range(ctx.scale(60, 1000))]
+    for case, res, real, model in pipe.run_cases(ctx, pc):
+        ctx.count("directed-paired-two-bounds")
+        before = len(ctx.failures)
+        c05.two_bounds_oracle(ctx, case, real)
+        for f in ctx.failures[before:]:
+            f.signature = "C11/paired-criterion"
 
 
 def extended_search(ctx):
